@@ -28,7 +28,7 @@ From ClapModel Require Import Complete.EngineAccept Complete.EngineFuel Complete
 From ClapModel Require ParseProofs.Chain ParseProofs.ActionsTop.
 From ClapModel Require Import Complete.EngineLine Complete.EnginePositional.
 From ClapModel Require ParseProofs.ChainWide.
-From ClapModel Require Import Complete.EngineItems Complete.EngineWide Complete.EngineHidden Complete.EngineOrder Complete.EngineOptState Complete.EngineTerm.
+From ClapModel Require Import Complete.EngineItems Complete.EngineWide Complete.EngineHidden Complete.EngineOrder Complete.EngineOptState Complete.EngineTerm Complete.EngineEscape.
 From Coq Require Import Permutation Sorted.
 From ClapModel Require Gen.EngineSites.
 From Coq Require Import ZArith.
@@ -700,6 +700,64 @@ Theorem C18_low_index_multiples_refuted :
   LowIndex.kind_of (parse_top LowIndex.c0 ([112] :: LowIndex.line ++ [LowIndex.ddw LowIndex.w_pf])) = Some EUnknownArgument.
 Proof. exact low_index_multiples_refuted. Qed.
 Print Assumptions C18_low_index_multiples_refuted.
+
+(** * Round 5: lines with the ESCAPE `--` (Complete/EngineEscape.v) - beyond the letter of the property, whose acceptance clause
+      speaks of positions "before any `--`"
+
+    [esc_level c]: no low-index multiples, no [allow_missing_positional], no [last(true)] argument.  [room c toks pos]: every word
+    of [toks] finds a positional, the counter starting at [pos] (the trailing-mode loop: the terminator of the positional at the
+    counter and a value of a single-valued positional move it on, a value of a multi-valued positional does not).
+    [escvals c pos vals pos']: values (or the terminator) of single-valued positionals, then optionally values of a multi-valued
+    positional below the engine's [num_args]; none is a subcommand name (the ENGINE still looks words up as subcommands behind
+    `--`; the parser does not). *)
+
+(** the two machines behind `--`, side by side *)
+Theorem C18_escaped_agreement : forall pc cur pos vals pos' vaf, elevel pc cur -> esc_level pc ->
+  possible_subcommand pc ESC vaf = None -> escvals pc pos vals pos' ->
+  (exists est', shadow_run (ESC :: vals) cur pos false ValueDone vaf = SNext cur pos' true est' (vaf || negb (is_nil vals)) /\
+                (vals = [] -> est' = ValueDone) /\ (vals <> [] -> exists p n, est' = Pos p n)) /\
+  (forall tail st, room pc tail pos' ->
+     parse_loop pc (ESC :: vals ++ tail) (Chain.lsV pos vaf) st =
+     parse_loop pc (vals ++ tail) (mkL PSValuesDone pos vaf true) (esc_state st) /\
+     (forall e s, parse_loop pc (ESC :: vals ++ tail) (Chain.lsV pos vaf) st = RErr e s -> reaction_error pc e) /\
+     (forall lr, parse_loop pc (ESC :: vals ++ tail) (Chain.lsV pos vaf) st = ROk lr -> exists st', lr = LDone st')).
+Proof. exact escaped_agreement. Qed.
+Print Assumptions C18_escaped_agreement.
+
+(** END TO END, parser: a line of the class [pline], then `--`, then words that all find a positional at the final level: the
+    completed line is never rejected with UnknownArgument / InvalidSubcommand - whatever the words look like *)
+Theorem C18_escaped_accepted : forall c0 bin line pcf posf vf toks e,
+  is_set s_no_binary_name c0 = false ->
+  pline (build_self (ActionsTop.with_bin c0 bin)) line pcf posf vf ->
+  esc_level pcf -> possible_subcommand pcf ESC vf = None -> room pcf toks posf ->
+  parse_top c0 (bin :: line ++ ESC :: toks) = OErr e -> ~ unknown_kind (e_kind e).
+Proof. exact escaped_accepted. Qed.
+Print Assumptions C18_escaped_accepted.
+
+(** END TO END with an escape, `line -- v1 .. vk <TAB>`: EVERY candidate the engine offers behind at least one escaped value stands
+    where a positional is left (otherwise the engine offers nothing: [C18_pos_state_none]), so the completed line is never rejected
+    as "unknown"; directly behind `--` (state [ValueDone]) that needs a positional at the counter *)
+Theorem C18_candidate_accepted_escaped : forall tbl c0 bin line vals w after l cd pcf posf vf pos' e,
+  tree_all unb c0 -> is_set s_no_binary_name c0 = false ->
+  N.of_nat (length (line ++ ESC :: vals)) + 2 <= usize_max ->
+  pline (build_self (ActionsTop.with_bin c0 bin)) line pcf posf vf ->
+  esc_level pcf -> possible_subcommand pcf ESC vf = None ->
+  escvals pcf posf vals pos' -> (vals = [] -> get_pos pcf posf <> None) ->
+  complete_model tbl c0 (bin :: (line ++ ESC :: vals) ++ w :: after) (N.of_nat (S (length (line ++ ESC :: vals)))) = COk l ->
+  In cd l ->
+  parse_top c0 (bin :: line ++ ESC :: vals ++ [cd_value cd]) = OErr e -> ~ unknown_kind (e_kind e).
+Proof. exact candidate_accepted_escaped. Qed.
+Print Assumptions C18_candidate_accepted_escaped.
+
+(** the class boundary: `p(--opt <v>) -> sub` has no positional; directly behind `--` the engine still offers `--opt` and `sub`;
+    `p -- --opt` -> InvalidSubcommand, `p -- sub` -> UnknownArgument (same on the real crate; outside the property) *)
+Theorem C18_escape_no_positional_refuted :
+  EscLine.has_cand (EscLine.ddw EscLine.w_opt) (IdArg EscLine.w_opt) (complete_model [] EscLine.ext0 [[112]; ESC; []] 2) = true /\
+  EscLine.has_cand EscLine.w_sub (IdCmd EscLine.w_sub) (complete_model [] EscLine.ext0 [[112]; ESC; []] 2) = true /\
+  EscLine.kind_of (parse_top EscLine.ext0 [[112]; ESC; EscLine.ddw EscLine.w_opt]) = Some EInvalidSubcommand /\
+  EscLine.kind_of (parse_top EscLine.ext0 [[112]; ESC; EscLine.w_sub]) = Some EUnknownArgument.
+Proof. exact escape_no_positional_refuted. Qed.
+Print Assumptions C18_escape_no_positional_refuted.
 
 (** the engine's positional lookup IS the parser's key-map lookup *)
 Theorem C18_find_pos_is_get_pos : forall c n, assert_app c = true -> find_pos c n = get_pos c n.
